@@ -996,6 +996,8 @@ func (prop) Generate(rng *rand.Rand, tier string) []corr.Case {
 	// aggregate commits carried by blocks that imply no BFT votes (standby generators, validators removed from
 	// the BFT set, maxHeightGenerated >= height) with replays / lower / same heights (nonvoting.go); added last
 	nonVotingJobs(rng, thorough, add)
+	// self-sufficient validators x pool shapes, messages of several commits across a validator change (single.go); added last
+	singleJobs(rng, thorough, add)
 
 	cases := make([]corr.Case, len(jobs))
 	var wg sync.WaitGroup
